@@ -88,34 +88,73 @@ fn compare(subs: &Subs, mut want: Vec<(usize, String, String, ChitchatId)>, what
     }
 }
 
-/// One scenario: subscriptions (with lifetimes) on a writer and on a replica, a list of writes.
-/// ops: (0 set, 1 set_with_ttl, 2 delete, 3 delete_after_ttl, key, value)
+#[derive(Clone, Debug)]
+pub enum LEv {
+    Sub(String),
+    Drop(usize),
+    Forever(usize),
+    /// (0 set, 1 set_with_ttl, 2 delete, 3 delete_after_ttl, key, value)
+    Write(u8, String, String),
+}
+
+/// Subscriptions first, then their lifetimes, then the writes.
 fn scenario(prefixes: &[(String, Life)], writes: &[(u8, String, String)], local_only: bool, ctx: &str, out: &mut LOut) {
-    let mut a = mk_node(simple_id("a", 9700), &NodeOpts::default());
-    let mut b = mk_node(simple_id("b", 9701), &NodeOpts::default());
-    let mut sa = Subs::new();
-    let mut sb = Subs::new();
-    for (p, _) in prefixes {
-        sa.subscribe(&a, p);
-        sb.subscribe(&b, p);
-    }
+    let mut ev: Vec<LEv> = prefixes.iter().map(|(p, _)| LEv::Sub(p.clone())).collect();
     for (i, (_, life)) in prefixes.iter().enumerate() {
         match life {
-            Life::Dropped => {
-                sa.drop_handle(i);
-                sb.drop_handle(i);
-            }
-            Life::Forever => {
-                sa.forever(i);
-                sb.forever(i);
-            }
+            Life::Dropped => ev.push(LEv::Drop(i)),
+            Life::Forever => ev.push(LEv::Forever(i)),
             Life::Kept => {}
         }
     }
+    ev.extend(writes.iter().map(|w| LEv::Write(w.0, w.1.clone(), w.2.clone())));
+    scenario_events(&ev, local_only, None, ctx, out);
+}
+
+/// One scenario: any interleaving of subscribe / drop / forever / write events on a writer and on a replica.
+/// `reset_prelude`: the owner has collected a tombstone before the replica's first sync, so that the replica's copy
+/// is built by a gossip reset (needs the runtime to advance the paused clock).
+fn scenario_events(events: &[LEv], local_only: bool, reset_prelude: Option<&tokio::runtime::Runtime>, ctx: &str, out: &mut LOut) {
+    let opts = NodeOpts { tomb_grace: std::time::Duration::from_secs(100), ..Default::default() };
+    let mut a = mk_node(simple_id("a", 9700), &opts);
+    let mut b = mk_node(simple_id("b", 9701), &opts);
+    let mut sa = Subs::new();
+    let mut sb = Subs::new();
+    if let Some(rt) = reset_prelude {
+        a.cc.self_node_state().set("zz-prelude", "1");
+        a.cc.self_node_state().delete("zz-prelude");
+        rt.block_on(tokio::time::advance(std::time::Duration::from_secs(101)));
+        a.cc.verif_gc_keys_marked_for_deletion();
+        out.c.inc("scenarios_with_reset_prelude");
+    }
     let aid = a.id.clone();
     let mut last_ack: Option<Vec<u8>> = None;
-    for (wi, (op, key, value)) in writes.iter().enumerate() {
-        let what = format!("{ctx} write#{wi} op{op} key {key:?} value {value:?}");
+    let mut wi = 0usize;
+    for ev in events {
+        let (op, key, value) = match ev {
+            LEv::Sub(p) => {
+                sa.subscribe(&a, p);
+                sb.subscribe(&b, p);
+                continue;
+            }
+            LEv::Drop(i) => {
+                if *i < sa.prefixes.len() {
+                    sa.drop_handle(*i);
+                    sb.drop_handle(*i);
+                }
+                continue;
+            }
+            LEv::Forever(i) => {
+                if *i < sa.prefixes.len() {
+                    sa.forever(*i);
+                    sb.forever(*i);
+                }
+                continue;
+            }
+            LEv::Write(op, key, value) => (op, key, value),
+        };
+        wi += 1;
+        let what = format!("{ctx} events {:?} write#{wi} op{op} key {key:?} value {value:?}", events.iter().map(|e| match e { LEv::Sub(p) => format!("sub({p:?})"), LEv::Drop(i) => format!("drop#{i}"), LEv::Forever(i) => format!("forever#{i}"), LEv::Write(o, k, _) => format!("w{o}({k:?})") }).collect::<Vec<_>>());
         // what is visible before decides whether the write is effective
         let before = a.cc.node_state(&aid).and_then(|ns| ns.get_versioned(key).map(|v| (v.value.clone(), st_code(v))));
         let r = catch(|| {
@@ -263,6 +302,63 @@ pub fn check(args: &Args) -> Outcome {
     for i in 0..ev.evaluations {
         ev.distinct.insert(mix(i, 0xE7));
     }
+    // every order of subscribe / drop / forever / write events of length <= 5 over two prefixes (ids of dropped
+    // handles must never be confused with those of live ones), followed by two writes; every 5th one on a replica
+    // whose copy is built by a gossip reset
+    let order_alpha: Vec<LEv> = vec![LEv::Sub(String::new()), LEv::Sub("a".into()), LEv::Drop(0), LEv::Drop(1), LEv::Drop(2), LEv::Forever(0), LEv::Forever(1), LEv::Write(0, "a".into(), String::new())];
+    let olen = if miri { 2 } else { 5u32 };
+    let na = order_alpha.len() as u64;
+    let total_orders: u64 = (1..=olen).map(|l| na.pow(l)).sum();
+    let res = par_run(total_orders.div_ceil(512), args.threads, |chunk| {
+        if deadline.expired() {
+            return None;
+        }
+        let rt = paused_rt();
+        let _g = rt.enter();
+        let mut out = LOut { findings: vec![], c: Counters::default() };
+        for idx in chunk * 512..((chunk + 1) * 512).min(total_orders) {
+            // decode idx into (length, digits)
+            let mut rest = idx;
+            let mut len = 1u32;
+            while rest >= na.pow(len) {
+                rest -= na.pow(len);
+                len += 1;
+            }
+            let mut evs = vec![];
+            let mut nw = 0;
+            for _ in 0..len {
+                let mut e = order_alpha[(rest % na) as usize].clone();
+                rest /= na;
+                if let LEv::Write(_, _, v) = &mut e {
+                    nw += 1;
+                    *v = format!("w{nw}");
+                }
+                evs.push(e);
+            }
+            evs.push(LEv::Write(0, "a".into(), "final-a".into()));
+            evs.push(LEv::Write(1, "b".into(), "final-b".into()));
+            let prelude = idx % 5 == 0 && !local_only;
+            scenario_events(&evs, local_only || idx % 2 == 1, if prelude { Some(&rt) } else { None }, "order", &mut out);
+            out.c.inc("event_orders");
+            if out.findings.len() > 3 {
+                break;
+            }
+        }
+        Some(out)
+    });
+    let orders_complete = res.len() as u64 == total_orders.div_ceil(512);
+    for (_, out) in res {
+        ev.counters.merge(&out.c);
+        ev.evaluations += out.c.get("event_orders");
+        for f in out.findings {
+            if f.is_for("C15") {
+                violations.push((f, json!({"engine": "E7", "part": "event orders"})));
+            }
+        }
+    }
+    if !orders_complete {
+        ev.inconclusive.push("wall-clock watchdog: event-order enumeration not completed".into());
+    }
     // random part: up to 8 prefixes, random lifetimes and subscribe / drop / forever orders, several members' keys
     let nr = if miri { 10 } else { args.n(100_000, 3_000_000) };
     let seed = args.seed;
@@ -274,12 +370,43 @@ pub fn check(args: &Args) -> Outcome {
         let rt = paused_rt();
         let _g = rt.enter();
         let mut rng = rng_from(mix3(seed, i, 0xC15));
+        #[allow(unused_mut)]
         let n = rng.random_range(0..=8);
         let set: Vec<(String, Life)> = (0..n).map(|_| (pool[rng.random_range(0..pool.len())].clone(), [Life::Kept, Life::Kept, Life::Dropped, Life::Forever][rng.random_range(0..4)])).collect();
         let nw = rng.random_range(1..8);
         let writes: Vec<(u8, String, String)> = (0..nw).map(|_| ([0u8, 0, 1, 2, 3][rng.random_range(0..5)], pool[rng.random_range(0..pool.len())].clone(), format!("v{}", rng.random_range(0..3)))).collect();
         let mut out = LOut { findings: vec![], c: Counters::default() };
-        scenario(&set, &writes, local_only, &format!("random case {i}"), &mut out);
+        if i % 2 == 0 {
+            scenario(&set, &writes, local_only, &format!("random case {i}"), &mut out);
+        } else {
+            // interleaved: subscriptions, lifetime changes and writes in random order
+            let mut evs: Vec<LEv> = vec![];
+            let mut nsub = 0usize;
+            let mut wq = writes.clone();
+            let mut sq = set.clone();
+            while !wq.is_empty() || !sq.is_empty() {
+                match rng.random_range(0..4) {
+                    0 if !sq.is_empty() => {
+                        evs.push(LEv::Sub(sq.remove(0).0));
+                        nsub += 1;
+                    }
+                    1 if nsub > 0 => evs.push(LEv::Drop(rng.random_range(0..nsub))),
+                    2 if nsub > 0 && rng.random_bool(0.3) => evs.push(LEv::Forever(rng.random_range(0..nsub))),
+                    _ if !wq.is_empty() => {
+                        let w = wq.remove(0);
+                        evs.push(LEv::Write(w.0, w.1, w.2));
+                    }
+                    _ => {
+                        if !sq.is_empty() {
+                            evs.push(LEv::Sub(sq.remove(0).0));
+                            nsub += 1;
+                        }
+                    }
+                }
+            }
+            let prelude = i % 4 == 1 && !local_only;
+            scenario_events(&evs, local_only, if prelude { Some(&rt) } else { None }, &format!("random interleaved case {i}"), &mut out);
+        }
         Some((out, hash_of(&format!("{set:?}{writes:?}")), if i < 2 { Some(json!({"subscriptions": set.iter().map(|s| format!("{:?}/{:?}", s.0, s.1)).collect::<Vec<_>>(), "writes": writes.iter().map(|w| format!("op{} {:?}={:?}", w.0, w.1, w.2)).collect::<Vec<_>>()})) } else { None }))
     });
     let rdone = res.len() as u64;
